@@ -4,7 +4,10 @@ package main
 
 import (
 	"fmt"
+	"math/rand"
 	"strings"
+	"sync"
+	"time"
 
 	"github.com/arloliu/go-secs/v2/hsmsss"
 
@@ -176,5 +179,142 @@ func main() {
 			}
 		}
 	}
+	timedPass(c)
 	c.Finish()
+}
+
+// timedPass drives the real loop with a REAL interval so that suppression rule 1 ("a frame moved
+// within the last interval") is scripted too: an active observation is an iteration in which one
+// of OUR OWN writes landed inside the window (nothing received). Such an iteration must be skipped
+// and must leave the failure run untouched: our own writes never forgive a counted timeout.
+func timedPass(c *vh.Ctx) {
+	const interval = 3 * time.Millisecond
+	n := c.N / 25
+	if n < 60 {
+		n = 60
+	}
+	if n > 4000 {
+		n = 4000
+	}
+	type res struct {
+		line, count string
+		fails       []string
+		invalid     bool
+	}
+	out := make([]res, n)
+	seeds := make([]int64, n)
+	for i := range seeds {
+		seeds[i] = c.Rng.Int63()
+	}
+	var wg sync.WaitGroup
+	sem := make(chan struct{}, 6)
+	for i := 0; i < n; i++ {
+		wg.Add(1)
+		sem <- struct{}{}
+		go func(i int) {
+			defer wg.Done()
+			defer func() { <-sem }()
+			r := rand.New(rand.NewSource(seeds[i]))
+			for attempt := 0; attempt < 4; attempt++ {
+				out[i] = timedCase(r, i, interval)
+				if !out[i].invalid {
+					return
+				}
+			}
+		}(i)
+	}
+	wg.Wait()
+	for _, o := range out {
+		if o.invalid {
+			c.Count("T/discarded-scheduler-delay")
+			continue
+		}
+		c.Case(o.line, o.line, true)
+		c.Count(o.count)
+		for _, f := range o.fails {
+			c.Fail(f, o.line)
+		}
+	}
+}
+
+func timedCase(r *rand.Rand, i int, interval time.Duration) (out struct {
+	line, count string
+	fails       []string
+	invalid     bool
+}) {
+	th := 1 + r.Intn(4)
+	sup := r.Intn(5) != 0
+	mode := i % 3 // 0: silent peer + own one-way writes; 1: the same with rule-2 skips; 2: random
+	k := th + 1 + r.Intn(6)
+	obs := make([]hsmsss.VerifLinktestObs, k)
+	stamp := int64(1 + r.Intn(5))
+	for j := range obs {
+		o := &obs[j]
+		o.ProbeFails = true
+		o.Active = r.Intn(2) == 0
+		switch mode {
+		case 1:
+			if !o.Active && r.Intn(4) == 0 {
+				o.PreInflight = 1
+			}
+		case 2:
+			o.ProbeFails = r.Intn(4) != 0
+			if r.Intn(5) == 0 {
+				stamp += int64(r.Intn(2))
+			}
+			if r.Intn(10) == 0 {
+				o.Inflight = 1
+			}
+		}
+		o.RecvNow, o.RecvFinal = stamp, stamp
+	}
+	trace, invalid := hsmsss.VerifRunLinktestTimed(th, sup, obs, interval)
+	if invalid {
+		out.invalid = true
+		return out
+	}
+	var sb strings.Builder
+	fmt.Fprintf(&sb, "T %d %s %d", th, vh.B01(sup), k)
+	for j, o := range obs {
+		fmt.Fprintf(&sb, " %s %d %s %d %s %d %s %d", vh.B01(o.Active), o.PreInflight, vh.B01(o.ProbeFails), sentBase+int64(j),
+			stampModel(o.RecvNow), o.Inflight, stampModel(o.RecvFinal), o.InflightFinal)
+	}
+	sb.WriteString(" |")
+	downAt := -1
+	for j, it := range trace {
+		fmt.Fprintf(&sb, " %d %d %d %d %s", it.Suppressed, it.Send, it.Err, it.Credited, vh.B01(it.Down))
+		if it.Down && downAt < 0 {
+			downAt = j
+		}
+	}
+	out.line = sb.String()
+	out.count = fmt.Sprintf("T/mode=%d/sup=%v/down=%v", mode, sup, downAt >= 0)
+	// implementation-level oracle (the property, without the model): the peer is silent in modes 0
+	// and 1 (every probe times out, nothing is received, no reply outstanding at the snapshots), so
+	// the link must drop at exactly the threshold-th PROBED iteration, whatever we wrote ourselves.
+	if mode != 2 {
+		probes, want := 0, -1
+		for j, o := range obs {
+			if sup && (o.Active || o.PreInflight > 0) {
+				continue
+			}
+			probes++
+			if probes == th {
+				want = j
+				break
+			}
+		}
+		if downAt != want {
+			out.fails = append(out.fails, fmt.Sprintf("silent peer with local one-way writes: disconnect at iteration %d, want %d (the threshold-th consecutive probe timeout)", downAt, want))
+		}
+	}
+	for j, it := range trace {
+		o := obs[j]
+		wantSkip := sup && (o.Active || o.PreInflight > 0)
+		if (it.Suppressed == 1) != wantSkip || (it.Send == 1) == wantSkip {
+			out.fails = append(out.fails, "probe rule: probe sent/suppressed contrary to the traffic-within-interval / reply-outstanding rules")
+			break
+		}
+	}
+	return out
 }
